@@ -36,7 +36,6 @@ Proof. intros p r H. destruct (validate_path_parts p r H) as (ps & -> & Hg). exi
 
 Section P.
 Variable home : option (list N).
-Variable release : bool.
 
 Lemma item_inv : forall v it, item v = Some it -> it_path it <> [].
 Proof.
@@ -60,47 +59,50 @@ Proof.
   destruct (seq_of_In _ _ _ _ _ Ei Hit) as (e & He). eapply item_inv; eauto.
 Qed.
 
-Lemma upload_inv : forall v u, upload release v = Some u ->
+Lemma upload_inv : forall v u, upload v = Some u ->
   normalised (up_path u) /\ 1 <= up_groups u /\ up_pass u <> [] /\
   (up_provider u = V_dropbox \/ up_provider u = V_gdrive \/ up_provider u = V_ydisk) /\
-  (forall n, up_max_age u = Some n -> exists t, parse_duration release t = Dur n).
+  (forall n, up_max_age u = Some n -> exists t, parse_duration t = Dur n).
 Proof.
   intros v u H. unfold upload in H. destruct (strict _ v) as [m|]; [|discriminate].
   destruct (req provider (get K_provider m)) as [pr|] eqn:Epr; [|discriminate].
   destruct (req str_any (get K_path m)) as [p|]; [|discriminate]. destruct (req usize (get K_mbg m)) as [g|]; [|discriminate].
   destruct (req str_any (get K_pass m)) as [pw|]; [|discriminate].
-  destruct (duration_field release (get K_mtwb m)) as [d|] eqn:Ed; [|discriminate].
+  destruct (duration_field (get K_mtwb m)) as [d|] eqn:Ed; [|discriminate].
   destruct (nonempty p && (1 <=? g) && nonempty pw) eqn:E; [|discriminate].
   destruct (validate_path p) as [p'|] eqn:Ev; [|discriminate]. inversion H; subst. cbn.
   apply andb_true_iff in E as [E E3]. apply andb_true_iff in E as [E1 E2].
   split; [eapply validate_normalised; eauto|]. split; [now apply N.leb_le|]. split; [now apply nonempty_ne|]. split.
   - unfold req in Epr. destruct (get K_provider m) as [vp|]; [|discriminate]. unfold provider in Epr.
-    destruct vp as [l|l|mp]; try discriminate. destruct (negb (nodup_keys mp)); [discriminate|].
+    destruct (strict _ vp) as [mp|]; [|discriminate].
     destruct (req str_typed (get K_name mp)) as [nm|]; [|discriminate]. destruct (req str_typed (get K_cid mp)); [|discriminate].
     destruct (req str_typed (get K_csec mp)); [|discriminate]. destruct (req str_typed (get K_rtok mp)); [|discriminate].
-    destruct (key_eqb nm V_dropbox) eqn:E4; [inversion Epr; subst; left; now apply list_eqb_eq in E4|].
-    destruct (key_eqb nm V_gdrive) eqn:E5; [inversion Epr; subst; right; left; now apply list_eqb_eq in E5|].
-    destruct (key_eqb nm V_ydisk) eqn:E6; [inversion Epr; subst; right; right; now apply list_eqb_eq in E6|discriminate].
+    destruct ((key_eqb nm V_dropbox || key_eqb nm V_gdrive || key_eqb nm V_ydisk) && nonempty l && nonempty l0 && nonempty l1) eqn:EE; [|discriminate].
+    inversion Epr; subst. repeat (apply andb_true_iff in EE as [EE _]).
+    apply orb_true_iff in EE as [EE|E6]; [apply orb_true_iff in EE as [E4|E5]|].
+    + left; now apply list_eqb_eq in E4.
+    + right; left; now apply list_eqb_eq in E5.
+    + right; right; now apply list_eqb_eq in E6.
   - intros n Hn. subst d. unfold duration_field in Ed. destruct (get K_mtwb m) as [vd|]; [|discriminate].
-    destruct (str_any vd) as [t|]; [|discriminate]. destruct (parse_duration release t) eqn:Ep; try discriminate. inversion Ed; subst. eauto.
+    destruct (str_any vd) as [t|]; [|discriminate]. destruct (parse_duration t) eqn:Ep; try discriminate. inversion Ed; subst. eauto.
 Qed.
 
-Lemma spec_inv : forall v sp, spec home release v = Some sp ->
+Lemma spec_inv : forall v sp, spec home v = Some sp ->
   sp_name sp <> [] /\ normalised (sp_path sp) /\
   (forall b, sp_backup sp = Some b -> exists v', backup v' = Some b) /\
-  (forall u, sp_upload sp = Some u -> exists v', upload release v' = Some u).
+  (forall u, sp_upload sp = Some u -> exists v', upload v' = Some u).
 Proof.
   intros v sp H. unfold spec in H. destruct (strict _ v) as [m|]; [|discriminate].
   destruct (req str_any (get K_name m)) as [n|]; [|discriminate]. destruct (req str_any (get K_path m)) as [p|]; [|discriminate].
   destruct (opt backup (get K_backup m)) as [b|] eqn:Eb; [|discriminate].
-  destruct (opt (upload release) (get K_upload m)) as [u|] eqn:Eu; [|discriminate].
+  destruct (opt (upload) (get K_upload m)) as [u|] eqn:Eu; [|discriminate].
   destruct (nonempty n && nonempty p) eqn:E; [|discriminate]. destruct (local_path home p) as [p'|] eqn:Ep; [|discriminate].
   inversion H; subst. cbn. apply andb_true_iff in E as [E1 E2]. split; [now apply nonempty_ne|].
   split; [unfold local_path in Ep; eapply validate_normalised; eauto|]. split.
   - intros b0 ->. unfold opt in Eb. destruct (get K_backup m) as [vb|]; [|discriminate]. destruct (is_null vb); [discriminate|].
     destruct (backup vb) eqn:E3; inversion Eb; subst. eauto.
   - intros u0 ->. unfold opt in Eu. destruct (get K_upload m) as [vu|]; [|discriminate]. destruct (is_null vu); [discriminate|].
-    destruct (upload release vu) eqn:E3; inversion Eu; subst. eauto.
+    destruct (upload vu) eqn:E3; inversion Eu; subst. eauto.
 Qed.
 
 Lemma distinct_NoDup : forall l, distinct l = true -> NoDup l.
@@ -111,7 +113,7 @@ Proof.
 Qed.
 
 (* C20: whatever document is accepted, the configuration acted upon is well formed *)
-Theorem accepted_wellformed : forall doc cfg, load home release doc = Some cfg ->
+Theorem accepted_wellformed : forall doc cfg, load home doc = Some cfg ->
   NoDup (map sp_name (c_backups cfg)) /\
   (forall p, c_metrics cfg = Some p -> normalised p) /\
   forall sp, In sp (c_backups cfg) ->
@@ -121,21 +123,21 @@ Theorem accepted_wellformed : forall doc cfg, load home release doc = Some cfg -
     (forall u, sp_upload sp = Some u ->
        normalised (up_path u) /\ 1 <= up_groups u /\ up_pass u <> [] /\
        (up_provider u = V_dropbox \/ up_provider u = V_gdrive \/ up_provider u = V_ydisk) /\
-       (forall n, up_max_age u = Some n -> exists t, parse_duration release t = Dur n)).
+       (forall n, up_max_age u = Some n -> exists t, parse_duration t = Dur n)).
 Proof.
   intros doc cfg H. unfold load in H. destruct doc as [v|].
   2:{ inversion H; subst. cbn. split; [constructor|]. split; [discriminate|intros sp []]. }
   destruct (strict _ v) as [m|]; [|discriminate].
-  destruct (match get K_backups m with None => Some [] | Some b => seq_of (spec home release) b end) as [bs|] eqn:Eb; [|discriminate].
+  destruct (match get K_backups m with None => Some [] | Some b => seq_of (spec home) b end) as [bs|] eqn:Eb; [|discriminate].
   destruct (opt str_any (get K_metrics m)) as [mt|]; [|discriminate].
   destruct (negb (distinct (map sp_name bs))) eqn:Ed; [discriminate|]. apply negb_false_iff in Ed.
-  assert (Hsp : forall sp, In sp bs -> exists e, spec home release e = Some sp).
+  assert (Hsp : forall sp, In sp bs -> exists e, spec home e = Some sp).
   { intros sp Hin. destruct (get K_backups m) as [vb|]; [eapply seq_of_In; eauto|inversion Eb; subst; destruct Hin]. }
   assert (Hbody : forall sp, In sp bs -> sp_name sp <> [] /\ normalised (sp_path sp) /\
      (forall b, sp_backup sp = Some b -> bk_items b <> [] /\ 1 <= bk_groups b /\ 1 <= bk_per_group b /\ Forall (fun it => it_path it <> []) (bk_items b)) /\
      (forall u, sp_upload sp = Some u -> normalised (up_path u) /\ 1 <= up_groups u /\ up_pass u <> [] /\
         (up_provider u = V_dropbox \/ up_provider u = V_gdrive \/ up_provider u = V_ydisk) /\
-        (forall n, up_max_age u = Some n -> exists t, parse_duration release t = Dur n))).
+        (forall n, up_max_age u = Some n -> exists t, parse_duration t = Dur n))).
   { intros sp Hin. destruct (Hsp sp Hin) as (e & He). destruct (spec_inv _ _ He) as (A & B & C & D).
     split; auto. split; auto. split.
     - intros b Hb. destruct (C b Hb) as (v' & Hv'). eapply backup_inv; eauto.
@@ -154,15 +156,21 @@ Proof.
   unfold known_only. apply not_true_is_false. intro H. rewrite forallb_forall in H. specialize (H _ Hin). cbn in H. congruence.
 Qed.
 
-Theorem unknown_top_key_rejected : forall home rel m k v, In (k, v) m ->
-  key_eqb k K_backups = false -> key_eqb k K_metrics = false -> load home rel (Some (YMap m)) = None.
+Theorem unknown_top_key_rejected : forall home m k v, In (k, v) m ->
+  key_eqb k K_backups = false -> key_eqb k K_metrics = false -> load home (Some (YMap m)) = None.
 Proof.
-  intros home rel m k v Hin H1 H2. unfold load. rewrite (strict_unknown _ m k v Hin); [reflexivity|]. cbn. now rewrite H1, H2.
+  intros home m k v Hin H1 H2. unfold load. rewrite (strict_unknown _ m k v Hin); [reflexivity|]. cbn. now rewrite H1, H2.
 Qed.
 
-(* ... but not inside `provider`: finding F4, as a theorem about the faithful model *)
+(* ... and, since the repair of finding F4, inside `provider` too; empty credentials are rejected as well *)
+Theorem unknown_provider_key_rejected : forall m k v, In (k, v) m ->
+  existsb (key_eqb k) [K_name; K_cid; K_csec; K_rtok] = false -> provider (YMap m) = None.
+Proof. intros m k v Hin Hk. unfold provider. now rewrite (strict_unknown _ m k v Hin Hk). Qed.
+
 Definition lf (t : list N) := YLeaf {| text := t; lkind := KStr |}.
-Example F4_unknown_provider_key_accepted :
-  provider (YMap [(K_name, lf V_dropbox); (K_cid, lf []); (K_csec, lf [120]); (K_rtok, lf [120]); ([122;122;122], lf [49])]) = Some V_dropbox.
-Proof. vm_compute. reflexivity. Qed.
+Example F4_repaired :
+  provider (YMap [(K_name, lf V_dropbox); (K_cid, lf [120]); (K_csec, lf [120]); (K_rtok, lf [120]); ([122;122;122], lf [49])]) = None /\
+  provider (YMap [(K_name, lf V_dropbox); (K_cid, lf []); (K_csec, lf [120]); (K_rtok, lf [120])]) = None /\
+  provider (YMap [(K_name, lf V_dropbox); (K_cid, lf [120]); (K_csec, lf [120]); (K_rtok, lf [120])]) = Some V_dropbox.
+Proof. vm_compute. repeat split. Qed.
 Print Assumptions accepted_wellformed.
